@@ -59,6 +59,8 @@ type Case struct {
 	// uncrashed head (0: it extends the head; >0: it is a new competing block), modulo.
 	ExtraDepth int `json:"extra_depth,omitempty"`
 	Crash *CrashSel `json:"crash,omitempty"`
+	// Strict: recorded findings are not tolerated (the form used by committed replays of cases without a crash point)
+	Strict bool `json:"strict,omitempty"`
 }
 
 var invalidKinds = []string{"state-root", "val-root", "staking-root", "tx-root", "receipt-root", "gas-used", "gas-rewards",
